@@ -1121,10 +1121,10 @@ impl Engine for E1Engine {
     }
     fn runs(&self, prop: &str, thorough: bool) -> u64 {
         let base = match prop {
-            "C07" => 30_000,
-            "C08" => 30_000,
+            "C07" => 200_000,
+            "C08" => 60_000,
             "C09" => 20_000,
-            _ => 30_000,
+            _ => 60_000,
         };
         if thorough {
             base * 20
